@@ -111,6 +111,20 @@ pub fn scaled_entries(cfg: &CfgD, tier: Tier) -> Vec<(String, EntryD)> {
         e.ops.push(OpD::Value(format!("S{}", n - 1), ValD::Str(s("again"))));
         out.push((format!("{n}-strings+duplicate-of-last"), e));
     }
+    // long names and long values (a name is valid whatever its length)
+    let lens: &[usize] = match tier {
+        Tier::Quick => &[1024, 1025, 4096],
+        Tier::Thorough => &[255, 256, 1023, 1024, 1025, 4096, 70_000],
+    };
+    for &len in lens {
+        let long = "n".repeat(len);
+        out.push((format!("metric-name-of-{len}-bytes"), build_entry(cfg, frame_minimal(), vec![(long.clone(), m(1, vec![])), (s("M"), m(2, vec![]))])));
+        out.push((format!("string-name-of-{len}-bytes"), build_entry(cfg, frame_minimal(), vec![(long.clone(), ValD::Str(s("v"))), (s("M"), m(2, vec![]))])));
+        out.push((format!("dimension-value-of-{len}-bytes"), build_entry(cfg, frame_minimal(), vec![(s("M"), m(2, vec![(s("k"), long.clone())]))])));
+        let mut dup = build_entry(cfg, frame_minimal(), vec![(long.clone(), m(1, vec![]))]);
+        dup.ops.push(OpD::Value(long.clone(), ValD::Str(s("again"))));
+        out.push((format!("metric-name-of-{len}-bytes-written-twice"), dup));
+    }
     out
 }
 
